@@ -167,6 +167,37 @@ Proof.
       unfold dc_len. rewrite (col_sim_len _ _ Hs), (vals_length l Hvalid).
       destruct (run_vec_drain steps (vals l)) as [[o y] r]. cbn [fst snd] in *.
       exists d', l'. split; [reflexivity|]. split; assumption.
+
+    + (* a skipped element from the front *)
+      destruct (dc_next_ok d l Hinv) as [d1 [E1 Hinv1]]. rewrite E1. cbn [bind].
+      destruct l as [|i l]; cbn [tl] in *.
+      * cbn [vals flat_map]. destruct (IH d1 [] Hinv1) as [d' [l' [E [Hinv' Hv]]]].
+        cbn [vals flat_map] in E, Hv. rewrite E. cbn [bind].
+        destruct (run_vec_drain steps []) as [[o y] r]. cbn [fst snd] in *.
+        exists d', l'. split; [reflexivity|]. split; assumption.
+      * destruct (nth_error data i) as [x|] eqn:Ex; [|apply nth_error_None in Ex; specialize (Hvalid i (or_introl eq_refl)); lia].
+        rewrite (vals_cons i l x Ex).
+        destruct (IH d1 l Hinv1) as [d' [l' [E [Hinv' Hv]]]]. rewrite E. cbn [bind].
+        destruct (run_vec_drain steps (vals l)) as [[o y] r]. cbn [fst snd] in *.
+        exists d', l'. split; [reflexivity|]. split; assumption.
+    + (* a skipped element from the back *)
+      destruct (dc_next_back_ok d l Hinv) as [d1 [E1 Hinv1]]. rewrite E1. cbn [bind].
+      destruct (rev l) as [|i rl] eqn:Er; cbn [tl] in *.
+      * assert (l = []) by (apply (f_equal (@rev nat)) in Er; rewrite rev_involutive in Er; exact Er). subst l.
+        cbn [vals flat_map rev]. destruct (IH d1 [] Hinv1) as [d' [l' [E [Hinv' Hv]]]].
+        cbn [vals flat_map rev] in E, Hv. rewrite E. cbn [bind].
+        destruct (run_vec_drain steps []) as [[o y] r]. cbn [fst snd] in *.
+        exists d', l'. split; [reflexivity|]. split; assumption.
+      * assert (Hl : l = rev rl ++ [i]) by (apply (f_equal (@rev nat)) in Er; rewrite rev_involutive in Er; exact Er).
+        destruct (nth_error data i) as [x|] eqn:Ex;
+          [|apply nth_error_None in Ex; assert (In i l) by (rewrite Hl; apply in_or_app; right; left; reflexivity);
+            specialize (Hvalid i H); lia].
+        assert (Hv1 : vals l = vals (rev rl) ++ [x]).
+        { rewrite Hl, vals_app. f_equal. rewrite (vals_cons i [] x Ex). reflexivity. }
+        rewrite Hv1, rev_app_distr. cbn [rev app]. rewrite rev_involutive.
+        destruct (IH d1 (rev rl) Hinv1) as [d' [l' [E [Hinv' Hv]]]]. rewrite E. cbn [bind].
+        destruct (run_vec_drain steps (vals (rev rl))) as [[o y] r]. cbn [fst snd] in *.
+        exists d', l'. split; [reflexivity|]. split; assumption.
 Qed.
 
 (** the destructor first drops whatever was not yielded *)
